@@ -33,13 +33,23 @@ RULE = ("(A) addrparse()+bmfcheck()+addrallowed() called directly: every string 
         "before, between and after, arguments with NUL CR TAB and 8-bit bytes, LF / CRLF / CRCRLF / CR-blank-LF / NUL-LF line ends, lines of "
         "1000..67000 bytes, unterminated tails); DISAGREE = SmtpCmdIO.commandsIO on the same buffer size and script, ORACLE = "
         "CmdLineSpec.specCalls on the bytes delivered before the first failing read, return value 0 / -1. "
+        "(session 4) The address mode A expects and the parsed address inside the mode-S trace predicates are those of the independent path "
+        "grammar of Nq/Spec/SmtpAddr.lean (specPath: start after the first < or after the first colon and blanks, source route dropped, items = "
+        "plain byte / quoted pair / quoted string up to the first top-level terminator, unterminated strings and a lone trailing backslash "
+        "included) followed by lipSpec and the literal 900 limit (specAddrparse), not the model's addrparse; STATS count every production and "
+        "ending of the grammar. (E) every session also reports the events on the two descriptors (reply bytes handed to ssout, write sizes, "
+        "reads of the connection with the fill of ssout's buffer, handler returns, flush callbacks; logged inside the timeoutread/timeoutwrite "
+        "stand-ins and wrappers around the real handlers and flush callbacks): ORACLE = SmtpFlush.disciplinedB on that log (nothing generated "
+        "is unwritten at a read of the connection or after a flush callback) for every session; DISAGREE = reads / flush callbacks with the "
+        "bytes written so far / handler returns against SmtpFlush.cmdsEv (flags from the generated table, 512-byte ssout, 1024-byte ssin, the "
+        "harness's read sizes) for the sessions that do not reach 354. "
         "non-trivial = distinct case with an address containing @ or <, a session with a RCPT that reaches the policy decision, or a stream "
         "with at least one dispatched call")
 
 run_standard("C08", "Nq.Props.C08", "drv_c08", "harness/c08_session.c", "qmail-smtpd",
              ["qmail.o", "timeoutread.o", "timeoutwrite.o", "rcpthosts.o", "ipme.o", "auto_qmail.o"],
              "5 4 3 6000", "6 5 4 120000", {"quick": RULE % (5, 5, 4, 3, 6), "thorough": RULE % (6, 6, 5, 4, 7)},
-             "Nq/SmtpSession.lean (run/sstep/addrparse/bmfcheck/rcpthostsMatch) + Nq/SmtpCmdIO.lean (commandsIO/runIO over substdio) vs qmail-smtpd.c + "
+             "Nq/SmtpSession.lean (run/sstep/addrparse/bmfcheck/rcpthostsMatch) + Nq/SmtpCmdIO.lean (commandsIO/runIO over substdio) + Nq/SmtpFlush.lean (cmdsEv) vs qmail-smtpd.c + "
              "commands.c (+ substdi.c) + rcpthosts.c + control.c + constmap.c + cdb_seek.c + ip.c + qmail-newmrh.c",
              alphabet=b"a@.<>\"\\:[] \r\nMAILRCPTDO0\x00\tB",
              stdin_prefixes=("S 2 0", "S 4 1", "S 1 0", "S 10 0", "A 2", "A 6", "A 10", "F 0 1024 -", "F 1 2 0101", "F 1 1 -"),
